@@ -18,6 +18,17 @@ CLAIMS['C06'] = dict(
     technique="CBMC dfcc function contracts + loop contracts on bodies lowered from the clang AST; RFC 8949 head spec as macros; watched-byte content",
     design_ref="6/C06")
 
+CLAIMS['C17'] = dict(
+    text="Proof for all 2^64 x 2^64 (secs, ticks) pairs, all int64 offsets including INT64_MIN and all tick rates 0..10^9 that "
+         "get_time_offset returns the exact signed tick difference, add_time_offset refuses exactly when the rate is 0 or the sum is "
+         "before the epoch (object unchanged) and otherwise stores (T div r, T mod r) of the exact sum with no signed overflow, and "
+         "operator< / operator<= are the lexicographic order; four integer lemmas (z3) bridge machine to mathematical arithmetic, "
+         "give normalisation, inversion (add after offset is the identity) and order-by-instant. Block-level earliest-time invariant: see units blk.*.",
+    note="Assumes instants and results < 2^63 and tick rate <= 10^9 (the property's representable range); LP64 modular unsigned arithmetic; "
+         "lemmas are over mathematical integers (z3 4.8).",
+    technique="CBMC dfcc contracts on lowered Timestamp methods (cvc5/cadical) + SMT integer lemmas (z3)",
+    design_ref="6/C17")
+
 ALL = ['C%02d' % i for i in range(1, 21)]
 
 
